@@ -152,6 +152,10 @@ class Space(DNASpec):
             f'Number of child values in DNA ({len(dna.children)}) does not '
             f'match the number of elements ({len(self.elements)}). Child '
             f'values: {dna.children!r}, Location: {self.location.path}.')
+      if dna.value is not None:
+        raise ValueError(
+            f'DNA value type mismatch. Value: {dna.value!r}, '
+            f'Location: {self.location.path}.')
       for i, elem in enumerate(self.elements):
         elem.validate(dna[i])
 
